@@ -415,7 +415,16 @@ pub fn mutate(t: &mut Tape, d: &mut Vec<u8>, extreme: bool) {
                 d.splice(s .. e, big.bytes());
             }
         }
-        7 => d.clear(),
+        7 => {
+            if t.draw(DATA, 2) == 0 || d.is_empty() {
+                d.clear();
+            } else {
+                // overwrite one byte by an extreme VarInt (length fields of VarInt-framed protocols)
+                let at = t.draw(DATA, d.len().min(8) as u64) as usize;
+                let v: &[u8] = *t.pick(DATA, &[&[0xff, 0xff, 0xff, 0xff, 0x0f][..], &[0xff, 0xff, 0xff, 0xff, 0x07][..], &[0x80, 0x80, 0x80, 0x80, 0x08][..]]);
+                d.splice(at .. at + 1, v.iter().copied());
+            }
+        }
         8 if !d.is_empty() => {
             // insert a byte
             let at = t.draw(DATA, d.len() as u64 + 1) as usize;
@@ -458,7 +467,18 @@ pub fn header(fam: Fam, t: &mut Tape) -> Vec<u8> {
         Fam::Quake2 => b"\xff\xff\xff\xffprint\n".to_vec(),
         Fam::Quake3 => b"\xff\xff\xff\xffstatusResponse\n".to_vec(),
         Fam::Unreal2 => vec![0x80, 0, 0, 0, t.draw(DATA, 3) as u8],
-        Fam::McJava => vec![t.draw(DATA, 128) as u8, 0],
+        Fam::McJava => {
+            // packet length, packet id 0, then (often) an extreme string-length VarInt
+            let mut d = vec![t.draw(DATA, 128) as u8, 0];
+            match t.draw(DATA, 6) {
+                0 => d.extend_from_slice(&[0xff, 0xff, 0xff, 0xff, 0x0f]),
+                1 => d.extend_from_slice(&[0xff, 0xff, 0xff, 0xff, 0x07]),
+                2 => d.extend_from_slice(&[0x80, 0x80, 0x80, 0x80, 0x08]),
+                3 => d.extend_from_slice(&[0xff, 0xff, 0x7f]),
+                _ => {}
+            }
+            d
+        }
         Fam::McBedrock => {
             let mut d = vec![0x1c, 0x11, 0x22, 0x33, 0x44, 0x55, 0x66, 0x77, 0x88];
             d.extend_from_slice(&[1; 8]);
